@@ -19,6 +19,9 @@ REGISTRY = {
     "C02": ("c02", ["Esp.Props.C02"]),
     "C03": ("c03", ["Esp.Props.C03"]),
     "C04": ("c04", ["Esp.Props.C04"]),
+    "C05": ("c05", ["Esp.Props.C05"]),
+    "C07": ("c07", ["Esp.Props.C07"]),
+    "C08": ("c08", ["Esp.Props.C08"]),
     "C10": ("c10", ["Esp.Props.C10"]),
     "C11": ("c11", ["Esp.Props.C11"]),
     "C12": ("c12", ["Esp.Props.C12"]),
